@@ -51,7 +51,16 @@ def partition_oracles(schema, dataset):
         if len(dims) == 1:
             cols = axis_for(schema, *dims[0])
             return [("slice", None, SliceOracle(rows, cols, dataset))]
-        raise ValueError("numeric array with >1 grouping dimension not modelled")
+        if len(dims) == 2:
+            # numeric array grouped by two variables: a 3-D cube, one partition per array
+            # item; partition k tabulates item k's numeric value over X x Y
+            out = []
+            for k, it in enumerate(numarr.items):
+                o = slice_oracle(schema, dataset, dims[0], dims[1])
+                o.num_item = k
+                out.append(("slice", it["name"], o))
+            return out
+        raise ValueError("numeric array with >2 grouping dimensions not modelled")
     if len(dims) == 0:
         return [("nub", None, None)]
     if len(dims) == 1:
